@@ -39,6 +39,9 @@ type c04Run struct {
 	maxProcs   int
 	cancelRich bool
 	seeds      []uint32
+	// prefetch-rich runs: TTL of a few seconds, a small question pool and clients that keep asking for at
+	// least minDuration, so that many hits land in the last quarter of an entry's lifetime under load
+	minDuration time.Duration
 }
 
 type lcg uint32
@@ -176,6 +179,7 @@ func runWorkload(t *rapid.T, run c04Run, st *vfkit.Collector, label string) {
 		}
 	}
 	insecure := &tls.Config{InsecureSkipVerify: true}
+	runStart := time.Now()
 	var wg sync.WaitGroup
 	for c := 0; c < run.clients; c++ {
 		wg.Add(1)
@@ -196,7 +200,7 @@ func runWorkload(t *rapid.T, run c04Run, st *vfkit.Collector, label string) {
 					return
 				}
 				defer u.Close()
-				for done := 0; done < run.perClient && firstErr.Load() == nil; {
+				for done := 0; (done < run.perClient || time.Since(runStart) < run.minDuration) && firstErr.Load() == nil; {
 					w := 1 + int(rng.next())%8
 					type sentQ struct {
 						tr   c04Triple
@@ -227,7 +231,7 @@ func runWorkload(t *rapid.T, run c04Run, st *vfkit.Collector, label string) {
 					tc = insecure
 				}
 				var sc *StreamClient
-				for done := 0; done < run.perClient && firstErr.Load() == nil; {
+				for done := 0; (done < run.perClient || time.Since(runStart) < run.minDuration) && firstErr.Load() == nil; {
 					if sc == nil {
 						var err error
 						sc, err = DialStream("", addr, tc, 3*time.Second)
@@ -283,7 +287,7 @@ func runWorkload(t *rapid.T, run c04Run, st *vfkit.Collector, label string) {
 			default: // http, fasthttp, https, quic: sequential over a kept-alive connection
 				a := NewAsker(block+"10", "")
 				defer a.Close()
-				for done := 0; done < run.perClient && firstErr.Load() == nil; done++ {
+				for done := 0; (done < run.perClient || time.Since(runStart) < run.minDuration) && firstErr.Load() == nil; done++ {
 					tr, nm := pick()
 					id := uint16(done + c*4096)
 					res := a.Ask(kind, Query(id, nm, tr.typ, tr.class, rng.next()%2 == 0), 9*time.Second, 0)
@@ -360,6 +364,9 @@ func runWorkload(t *rapid.T, run c04Run, st *vfkit.Collector, label string) {
 	if run.cancelRich {
 		classes = append(classes, "cancel-rich")
 	}
+	if run.minDuration > 0 {
+		classes = append(classes, "prefetch-rich")
+	}
 	if int64(upTotal) < total.Load() {
 		classes = append(classes, "cache-hits")
 	}
@@ -383,11 +390,23 @@ func genRun(t *rapid.T, cancelRich bool) c04Run {
 	run.poolSize = rapid.SampledFrom([]int{20, 100, 400}).Draw(t, "poolSize")
 	run.maxProcs = rapid.SampledFrom([]int{0, 2, 4}).Draw(t, "gomaxprocs")
 	run.seeds = rapid.SliceOfN(rapid.Uint32(), run.clients, run.clients).Draw(t, "seeds")
+	if rapid.IntRange(0, 2).Draw(t, "prefetchRich") == 0 {
+		run.ttl = rapid.SampledFrom([]uint32{5, 6}).Draw(t, "prefetchTTL")
+		run.poolSize = rapid.SampledFrom([]int{20, 60}).Draw(t, "prefetchPool")
+		run.minDuration = 7 * time.Second
+		if run.cache == "off" {
+			run.cache = "large"
+		}
+		if run.clients > 24 {
+			run.clients = 24
+			run.seeds = run.seeds[:24]
+		}
+	}
 	return run
 }
 
 func TestVfC04Mixups(t *testing.T) {
-	st := vfkit.Stats("TestVfC04Mixups", "runs of 8-48 concurrent clients spread over all 8 listener kinds x 60-300 queries each from a pool of 20-400 (name,type,class) triples (mixed case, with/without OPT), 2-4 upstream kinds with per-reply delays (reordering), cache off/large/tiny, TTL 1-60 s, GOMAXPROCS {default,2,4}, against the -race -tags verif binary; oracle per response: question and keyed answer belong to this response's own query, no poison octets anywhere, no race report, no canary; non-trivial = >= 8 queries simultaneously in flight at an upstream with >= 2 listener kinds and >= 2 upstream kinds")
+	st := vfkit.Stats("TestVfC04Mixups", "runs of 8-48 concurrent clients spread over all 8 listener kinds x 60-300 queries each from a pool of 20-400 (name,type,class) triples (mixed case, with/without OPT), 2-4 upstream kinds with per-reply delays (reordering), cache off/large/tiny, TTL 1-60 s (one run in three prefetch-rich: TTL 5-6 s, small pool, >= 7 s of traffic), GOMAXPROCS {default,2,4}, against the -race -tags verif binary; oracle per response: question and keyed answer belong to this response's own query, no poison octets anywhere, no race report, no canary; non-trivial = >= 8 queries simultaneously in flight at an upstream with >= 2 listener kinds and >= 2 upstream kinds")
 	defer vfkit.Flush()
 	rapid.Check(t, func(t *rapid.T) {
 		runWorkload(t, genRun(t, false), st, "c04")
